@@ -57,8 +57,12 @@ impl ISocketConnection for ScaConnectionIface {
         return Err(ZmqError::ResourceLimitReached);
       }
       Err(TrySendError::Full(returned_fb)) => {
-        let timeout_duration = self.sndtimeo.unwrap_or(Duration::from_secs(30));
-        return match timeout(timeout_duration, self.pipe_sender.send(returned_fb)).await {
+        let send_fut = self.pipe_sender.send(returned_fb);
+        let sent = match self.sndtimeo {
+          None => Ok(send_fut.await), // SNDTIMEO = -1: wait until there is room.
+          Some(timeout_duration) => timeout(timeout_duration, send_fut).await,
+        };
+        return match sent {
           Ok(Ok(())) => Ok(()),
           Ok(Err(_)) => Err(ZmqError::ConnectionClosed),
           Err(_) => Err(ZmqError::ResourceLimitReached),
@@ -83,8 +87,12 @@ impl ISocketConnection for ScaConnectionIface {
         return Err(ZmqError::ResourceLimitReached);
       }
       Err(TrySendError::Full(returned_msgs)) => {
-        let timeout_duration = self.sndtimeo.unwrap_or(Duration::from_secs(30));
-        return match timeout(timeout_duration, self.pipe_sender.send(returned_msgs)).await {
+        let send_fut = self.pipe_sender.send(returned_msgs);
+        let sent = match self.sndtimeo {
+          None => Ok(send_fut.await), // SNDTIMEO = -1: wait until there is room.
+          Some(timeout_duration) => timeout(timeout_duration, send_fut).await,
+        };
+        return match sent {
           Ok(Ok(())) => Ok(()),
           Ok(Err(_)) => Err(ZmqError::ConnectionClosed),
           Err(_) => Err(ZmqError::ResourceLimitReached),
